@@ -246,7 +246,7 @@ func r072(c *Ctx, rule string) {
 		if st.Dir != types.RecvOnly {
 			continue
 		}
-		if e, ok := st.Chan.(*ssa.Extract); ok && e.Tuple == ssa.Value(g) {
+		if e, ok := stripConv(st.Chan).(*ssa.Extract); ok && e.Tuple == ssa.Value(g) {
 			if e.Index == 2 {
 				relArm = i
 			}
